@@ -277,8 +277,19 @@ def inject(case, fault, pos):
         j = i
         while j + 1 < len(ctx) and ctx[j + 1][1] == 'atoms' and ctx[j + 1][0] == 'moleculetype' and ctx[j + 1][2] != 'header':
             j += 1
-        lines.insert(j + 1, lines[i].split(';')[0])
-        return '\n'.join(lines), (fault, i)
+        copy_ = lines[i].split(';')[0]
+        toks = copy_.split()
+        how = (pos // 7) % 3
+        if how and len(toks) >= 6 and toks[2].lstrip('-').isdigit():
+            # the name is what has to be unique in a block: the same name in another residue (1), also with another atom
+            # type and charge group (2), is the same fault
+            toks[2] = str(int(toks[2]) + 1)
+            if how == 2 and toks[5].isdigit():
+                toks[1] = toks[1] + 'x'
+                toks[5] = str(int(toks[5]) + 1)
+            copy_ = ' '.join(toks)
+        lines.insert(j + 1, copy_)
+        return '\n'.join(lines), (fault + ':' + ['same-line', 'other-resid', 'other-resid-type-charge-group'][how], i)
     if fault in ('unbalanced-open', 'unbalanced-close'):
         spots = [i for i, c in enumerate(ctx) if c[2] == 'data' and '{' in lines[i].split(';')[0] and c[0] in ('moleculetype', 'link', 'modification')
                  and c[1] is not None]
